@@ -177,7 +177,7 @@ pub fn main() {
         engine::finish_replay(PROP, p, r);
     }
     let g = grid();
-    let random_cases = args.scale(32_000, 25) as u32;
+    let random_cases = args.scale(100_000, 10) as u32;
     let acc = engine::parallel(&args, PROP, |w, workers, acc| {
         for (i, c) in g.iter().enumerate() {
             if i % workers == w {
